@@ -821,6 +821,14 @@ fn decode_instructions(mut cur: Cursor<&[u8]>) -> MResult<Vec<DecodedInstr>> {
         let fxn_id = cur.read_u64::<LittleEndian>()?;
         let dst = cur.read_u32::<LittleEndian>()?;
         let arg_count = cur.read_u32::<LittleEndian>()? as usize;
+        // every operand is a u32 that must still be in the stream: do not trust the count for the allocation
+        let rem_args = cur.get_ref().len() - cur.position() as usize;
+        if arg_count > rem_args / 4 {
+          return Err(MechError::new(
+            TruncatedInstructionError,
+            None
+          ).with_compiler_loc());
+        }
         let mut args = Vec::with_capacity(arg_count);
         for _ in 0..arg_count {
           let a = cur.read_u32::<LittleEndian>()?;
